@@ -7,8 +7,19 @@ from props import common
 
 ID = "C15"
 LEVEL = "proof"
+LEVEL_TEXT = ("Lean 4 theorems about the transcription of Factory.fromJson / every fromJsonFragment: every accepted record passes the "
+              "key-set gate of its row of the schema table (no missing, no extra key, at every depth), carries a non-negative entries "
+              "equal to the document's, names a registered type, and the header has exactly type/data/version with a compatible "
+              "version; every toJson document is accepted. The schema table is regenerated from /repo's AST on every run and compared "
+              "with the model's table by `decide` (schema_matches), so an edited key list breaks a proof obligation; all single-point "
+              "mutations of generated documents are loaded on model and implementation, and an accepted document must re-serialise "
+              "to itself.")
+LEVEL_NOTE = ("Five lenient acceptances of the code are listed known findings and kept out of the generated mutations; the model mirrors "
+              "the harmless bool-as-number leniency. 'Accepted implies faithful' is decided by the oracle on the implementation, not "
+              "by a theorem.")
+TECHNIQUE = "Lean 4 proof (decoder gates) + source-derived schema table checked by decide + exhaustive single-point mutation correspondence"
 LEAN_MODULE = "Hg.Props.C15"
-THEOREMS = []
+THEOREMS = ["Hg.C15.schema_matches", "Hg.C15.decode_keys_gate", "Hg.C15.hasKeys_spec", "Hg.C15.decode_entries", "Hg.C15.decode_count", "Hg.C15.decode_unknown_type", "Hg.C15.decode_header_gate", "Hg.C15.decode_complete"]
 CASES = {"quick": 200, "thorough": 6000}
 RULE = ("valid documents (toJson of random trees in random states) and their single-point structural mutations at every position: "
         "delete a key, add a key (names drawn from every record kind of the format), retype a value over {null,bool,number,string,"
@@ -68,8 +79,8 @@ def enumerate_mutations(doc):
             for i in range(len(node)):
                 out.append(("drop element %d of %s" % (i, "/".join(map(str, path))), path, "pop", i))
                 out.append(("duplicate element %d of %s" % (i, "/".join(map(str, path))), path, "dup", i))
-                for r in (3.0, {}, None, "zz", []):
-                    if _jtype(r) != _jtype(node[i]):
+                for r in (3.0, {}, None, "zz", [], -1.0, "-inf", True):
+                    if _jtype(r) != _jtype(node[i]) or (isinstance(r, float) and r < 0):
                         out.append(("replace element %d of %s by %r" % (i, "/".join(map(str, path)), r), path, "seti", (i, r)))
             for i in range(len(node)):
                 walk(node[i], path + [i])
@@ -128,6 +139,14 @@ def excluded(m, doc):
     if action == "set" and isinstance(node, dict) and arg[0] == "entries" and arg[1] == "nan" and "variance" in node:
         return True   # same finding: Deviate stores variance * entries, so entries = nan loses the variance
     return False
+
+
+def pre_build():
+    """regenerate lean/Hg/Generated/Schema.lean from /repo's source (runs before `lake build`)"""
+    import extract
+
+    extract.main()
+    return None
 
 
 def gen_params(rng, tier):
